@@ -20,6 +20,7 @@ pub fn spec() -> PropSpec {
         assumptions: &["reference CPR encoder and closed-form NL(lat)", "elapsed time simulated by shifting the public time-stamp fields; a case whose measured wall time makes the whole-second gap ambiguous is discarded and counted", "R = 6371 km"],
         workers: 16,
         also_nochk: false,
+        fuzz_target: None,
         quick_budget_s: 900,
         thorough_budget_s: 3600,
         min_nontrivial_quick: 10_000,
